@@ -485,9 +485,36 @@ fn inner_c11(world_no: u64, t: &mut Tape, rep: &mut WorldReport) {
     if warm {
         rep.fire("decode-history");
     }
+    // ... and the other way round: rejected artifacts first (damaged copies, a nesting bomb), on the
+    // same consumer thread, then the intact one - a decoder must come out of an error as it went in
+    let mut rejected_first: Vec<Vec<u8>> = vec![];
+    if !faulty && t.chance(1, 2) {
+        let n = 1 + t.index(3);
+        let mut scratch = WorldReport::default();
+        for _ in 0..n {
+            if t.chance(1, 3) {
+                rejected_first.push(schema_nest(t, &clean).0);
+            } else {
+                let mut c = clean.clone();
+                let k = 1 + t.index(2);
+                for _ in 0..k {
+                    damage(t, &mut c, &[0xa0], &mut scratch);
+                }
+                rejected_first.push(c);
+            }
+        }
+        rep.fire("rejections-before-intact");
+    }
     let clean_for_warm = clean.clone();
     let proper = version.to_string();
     let decoded = in_consumer(s2, move || {
+        for bad in &rejected_first {
+            let _ = guarded(|| {
+                if let Ok(v) = TirVersion::try_from(proper.as_str()) {
+                    let _ = tx3_tir::encoding::from_bytes(bad, v);
+                }
+            });
+        }
         if warm {
             let _ = guarded(|| {
                 if let Ok(v) = TirVersion::try_from(proper.as_str()) {
